@@ -93,15 +93,47 @@ type MsgB struct {
 	Ключ   string
 }
 
+// MsgE promotes its key fields from an embedded struct pointer (nil in the
+// messages the harness sends); MsgN declares them with named string types.
+type MsgE struct {
+	*Inner
+	Num int32
+}
+
+type KeyName string
+type KeyNames []KeyName
+
+type MsgN struct {
+	Name   KeyName
+	Ключ   KeyName
+	Names  KeyNames
+	Nested *Inner
+	Items  []*Item
+	Num    int32
+}
+
 // usesMsgB: which methods use the second layout (one of the extra methods, so
 // that an extra entry listing two names mixes both layouts).
 //
 //go:norace
 func usesMsgB(method int) bool { return method == MExtra0+1 }
 
+// usesMsgN: the third extra method's messages declare their key fields with
+// named string types (kind string, type not string; a named slice of them).
+//
+//go:norace
+func usesMsgN(method int) bool { return method == MExtra0+2 }
+
 //go:norace
 func buildMsgFor(method, loc int, keys []string) interface{} {
 	m := buildMsg(loc, keys)
+	if usesMsgN(method) {
+		n := &MsgN{Name: KeyName(m.Name), Ключ: KeyName(m.Ключ), Nested: m.Nested, Items: m.Items, Num: m.Num}
+		for _, k := range m.Names {
+			n.Names = append(n.Names, KeyName(k))
+		}
+		return n
+	}
 	if !usesMsgB(method) {
 		return m
 	}
@@ -110,6 +142,9 @@ func buildMsgFor(method, loc int, keys []string) interface{} {
 
 //go:norace
 func emptyMsgFor(method int) interface{} {
+	if usesMsgN(method) {
+		return &MsgN{}
+	}
 	if usesMsgB(method) {
 		return &MsgB{}
 	}
@@ -304,6 +339,10 @@ type Sim struct {
 	stop         bool
 	addrSets     [][]resolver.Address
 	nConnErr     int
+	twinBal      balancer.Balancer // plan.TwinStart: a second balancer configured from the same JSON
+	twinCC       *FakeCC
+	twinCfg      serviceconfig.LoadBalancingConfig
+	twinSent     bool
 	dynT         reflect.Type // plan.DynMsg: message type made for this run
 	nRepicks     int
 	req          *reqCtx  // the application's current request-scoped context
@@ -351,6 +390,11 @@ func (s *Sim) buildAPIConfig() *pb.ApiConfig {
 		}
 		if c.RR {
 			api.ChannelPool.BindPickStrategy = pb.ChannelPoolConfig_ROUND_ROBIN
+		} else if c.OddStrategy {
+			// a strategy number the enum does not define: not ROUND_ROBIN
+			api.ChannelPool.BindPickStrategy = pb.ChannelPoolConfig_BindPickStrategy(5)
+		} else if c.Min%2 == 1 {
+			api.ChannelPool.BindPickStrategy = pb.ChannelPoolConfig_LEAST_ACTIVE_STREAMS // named explicitly
 		}
 	}
 	for _, e := range s.methodEntries() {
@@ -616,6 +660,22 @@ func (s *Sim) run() {
 		s.bal = builder.Build(s.cc, balancer.BuildOptions{})
 	})
 	s.settle()
+	if s.plan.TwinStart && s.conc && s.callerCfg != nil {
+		// Another channel of the process uses the very same service config text: a
+		// second balancer, built by the same builder, whose configuration object is
+		// what ParseConfig returns for the same JSON. Its first resolver update runs
+		// on its own serializer goroutine, concurrently with the first balancer's.
+		if p2, err := builder.(balancer.ConfigParser).ParseConfig(js); err == nil {
+			s.twinCfg = p2
+			env2 := NewEnv(s.k)
+			s.twinCC = &FakeCC{env: env2}
+			s.k.Spawn("core2:build", 2, &TaskTag{Op: -1, Phase: PhCore, Call: -1}, func() {
+				s.guard(func() { s.twinBal = builder.Build(s.twinCC, balancer.BuildOptions{}) })
+			})
+			s.settle()
+			s.res.Count("fault:second_balancer_with_the_same_config_text", 1)
+		}
+	}
 
 	for i := range s.plan.Ops {
 		if s.stop || k.Aborting() {
@@ -1109,6 +1169,20 @@ func (s *Sim) exec(i int, o Op) {
 			rs.Attributes = resolverAttrs
 			env.Fired["resolver_state_with_attributes"]++
 		}
+		if s.twinBal != nil && !s.twinSent {
+			// the twin's first update, on its own serializer (no ordering with ours)
+			s.twinSent = true
+			a2 := make([]resolver.Address, len(addrs))
+			for j := range addrs {
+				a2[j] = addrs[j]
+			}
+			tb, tc := s.twinBal, s.twinCfg
+			s.k.Spawn("core2:resolver", 2, &TaskTag{Op: i, Phase: PhCore, Call: -1}, func() {
+				s.guard(func() {
+					tb.UpdateClientConnState(balancer.ClientConnState{ResolverState: resolver.State{Addresses: a2}, BalancerConfig: tc})
+				})
+			})
+		}
 		s.spawnCore(i, kind, -1, 0, want, func() {
 			s.bal.UpdateClientConnState(balancer.ClientConnState{ResolverState: rs, BalancerConfig: cfg})
 		})
@@ -1535,7 +1609,10 @@ func (s *Sim) callBody(c *Call) {
 	if c.NilMsg {
 		// request shapes no key can be read from: untyped nil, typed nil pointer,
 		// values that are not messages at all
-		switch c.ID % 5 {
+		switch c.ID % 6 {
+		case 5:
+			// the key field is promoted from an embedded struct pointer that is nil
+			req = &MsgE{Num: 7}
 		case 0:
 			req = nil
 		case 1:
@@ -1722,6 +1799,8 @@ func (s *Sim) waitAndComplete(c *Call) error {
 			*rp = *buildMsg(s.plan.Cfg.Locator%len(locators), c.ReplyKeys)
 		case *MsgB:
 			*rp = *(buildMsgFor(c.Method, s.plan.Cfg.Locator%len(locators), c.ReplyKeys).(*MsgB))
+		case *MsgN:
+			*rp = *(buildMsgFor(c.Method, s.plan.Cfg.Locator%len(locators), c.ReplyKeys).(*MsgN))
 		default:
 			if c.dyn {
 				fillDyn(c.reply, buildMsg(s.plan.Cfg.Locator%len(locators), c.ReplyKeys))
